@@ -15,6 +15,7 @@ macro "prog_simp" "[" ds:Lean.Parser.Tactic.simpLemma,* "]" loc:(Lean.Parser.Tac
     runM_saveMintQ_bind, runM_saveMeltQ_bind, runM_getPending_bind, runM_getProofsUsed_bind, runM_getPendingByQuote_bind,
     runM_getSigs_bind, runM_getIssued_bind, runM_getRedeemed_bind, runM_getMintQuote_bind, runM_getMintQuoteByHash_bind,
     runM_getMeltQuote_bind, runM_getMeltQuoteByReq_bind, runM_getSig_bind, runM_getSeed_bind, runM_effUpdateMintQ_bind,
+    runM_effUpdateMeltQ_bind, runM_effRemovePending_bind,
     runM_lnFeeReserve_bind, runM_lnSendPayment_bind, runM_lnPayPartial_bind, runM_lnOutgoingStatus_bind,
     runM_lnInvoiceStatus_bind, runM_lnCreateInvoice_bind,
     runM_liftE_bind, runM_failOpt_bind, runM_pure_bind, runM_throw_bind, runM_failIf, runM_liftE, runM_failOpt,
@@ -328,5 +329,600 @@ theorem swap_cases (cx : Cx) (ps : List Proof) (outs : List BMsg) (v : Option E)
     refine ⟨sigs, rfl, ⟨rfl, by simp [ht], by cases u; exact hver, hsign, ?_, by simpa using hunder, ⟨outTotal, hac, hbal⟩, ?_⟩⟩
     · simpa [Proof.row, List.map_map, Function.comp_def] using hnd
     · intro hsa; simpa [hsa] using hv
+
+/-! ## Mint quotes and issuance -/
+
+/-- `GetMintQuoteState` as a function of (tables, Lightning state). -/
+def gmqsSpec (qid : Int) (s : DL) : DL × Except E MintQ :=
+  match dbGetMintQ s.1 qid with
+  | .error _ => (s, .error eQuoteNotExist)
+  | .ok q =>
+    if q.state == .unpaid then
+      match (lnInvStatus s.2 q.hash).2 with
+      | none => ((s.1, (lnInvStatus s.2 q.hash).1), .error (2, "ln"))
+      | some settled =>
+        if settled then
+          if s.1.mintQ.any (·.id == q.id) then
+            (({ s.1 with mintQ := updMintQ s.1.mintQ q.id .paid }, (lnInvStatus s.2 q.hash).1), .ok { q with state := .paid })
+          else ((s.1, (lnInvStatus s.2 q.hash).1), .error (1, "db"))
+        else ((s.1, (lnInvStatus s.2 q.hash).1), .ok q)
+    else (s, .ok q)
+
+theorem getMintQuoteState_runM (qid : Int) (s : DL) : runM (getMintQuoteState qid) s = gmqsSpec qid s := by
+  obtain ⟨db, ln⟩ := s
+  unfold gmqsSpec
+  prog_simp [getMintQuoteState]
+  cases hq : dbGetMintQ db qid with
+  | error e => simp only []; rfl
+  | ok q =>
+    simp only []
+    by_cases hu : (q.state == .unpaid) = true
+    · simp only [hu, if_true]
+      prog_simp [runM_pure]
+      cases hst : (lnInvStatus ln q.hash).2 with
+      | none => simp only []; rfl
+      | some settled =>
+        simp only []
+        by_cases hs : settled = true
+        · simp only [hs, if_true]
+          prog_simp [runM_pure]
+        · simp only [hs]; rfl
+    · simp only [hu]; rfl
+
+
+theorem any_updMintQ (qs : List MintQ) (id id' : Nat) (st : MQState) :
+    (updMintQ qs id st).any (·.id == id') = qs.any (·.id == id') := by
+  unfold updMintQ
+  induction qs with
+  | nil => rfl
+  | cons q rest ih =>
+    simp only [List.map_cons, List.any_cons, ih]
+    congr 1
+    split <;> rfl
+
+/-- Facts about an issuance that succeeded (inner closure of `MintTokens`). -/
+structure MintOk (cx : Cx) (q : MintQ) (outs : List BMsg) (sig : QSig) (s s' : DL) (sigs : List BSig) : Prop where
+  ln : s'.2 = s.2
+  db : s'.1 = { s.1 with mintQ := updMintQ (updMintQ s.1.mintQ q.id .pending) q.id .issued, sigs := s.1.sigs ++ sigs }
+  exists_ : s.1.mintQ.any (·.id == q.id) = true
+  signed : signAll cx.mem outs = .ok sigs
+  amount : ∃ total, amountChecked (outAmounts outs) = some total ∧ ¬ total > q.amount
+  nut20 : quoteSigOk q (outs.map (·.b.sid)) sig = true
+
+theorem mintInner_cases (cx : Cx) (q : MintQ) (outs : List BMsg) (sig : QSig) (s s' : DL) (r : Except E (List BSig))
+    (h : runM (mintInner cx q outs sig) s = (s', r)) :
+    (∃ e, r = .error e ∧ (s' = s ∨ s' = ({ s.1 with mintQ := updMintQ s.1.mintQ q.id .pending }, s.2))) ∨
+    (∃ sigs, r = .ok sigs ∧ MintOk cx q outs sig s s' sigs) := by
+  obtain ⟨db, ln⟩ := s
+  prog_simp [mintInner] at h
+  split at h
+  rotate_left; · left; cases h; exact ⟨_, rfl, Or.inl rfl⟩
+  rename_i hex
+  cases hac : amountChecked (outAmounts outs) with
+  | none => simp only [hac] at h; left; cases h; exact ⟨_, rfl, Or.inr rfl⟩
+  | some total =>
+    simp only [hac] at h
+    prog_simp [runM_pure] at h
+    split at h; · left; cases h; exact ⟨_, rfl, Or.inr rfl⟩
+    split at h; · left; cases h; exact ⟨_, rfl, Or.inr rfl⟩
+    split at h; · left; cases h; exact ⟨_, rfl, Or.inr rfl⟩
+    split at h; · left; cases h; exact ⟨_, rfl, Or.inr rfl⟩
+    rename_i hdup hamt hsigs hnut
+    split at h
+    rotate_left; · left; cases h; exact ⟨_, rfl, Or.inr rfl⟩
+    rename_i sigs hsign
+    simp only [any_updMintQ, hex, if_true] at h
+    obtain ⟨sb, sa, skey, _⟩ := signAll_ok hsign
+    have hsig : insertSigs db.sigs sigs = some (db.sigs ++ sigs) := by
+      apply insertSigs_of
+      · rw [sb]; exact dupOutputs_false (by simpa using hdup)
+      · intro x hx
+        exact getSigs_empty hsigs x.b (by rw [← sb]; exact List.mem_map.2 ⟨x, hx, rfl⟩)
+      · intro x hx; exact isKeyAmount_not_high (skey x hx).2
+    rw [hsig] at h
+    cases h
+    right
+    exact ⟨sigs, rfl, ⟨rfl, rfl, hex, hsign, ⟨total, hac, hamt⟩, by simpa using hnut⟩⟩
+
+
+theorem runM_getMintQuoteState_bind {β : Type} (qid : Int) (f : MintQ → PM β) (s : DL) :
+    runM (getMintQuoteState qid >>= f) s =
+      match (gmqsSpec qid s).2 with
+      | .ok q => runM (f q) (gmqsSpec qid s).1
+      | .error e => ((gmqsSpec qid s).1, .error e) := by
+  rw [runM_bind, getMintQuoteState_runM]
+  generalize gmqsSpec qid s = x
+  obtain ⟨s1, r⟩ := x
+  cases r <;> rfl
+
+theorem runM_liftrun_bind {α β : Type} (p : PM α) (f : Except E α → PM β) (s : DL) :
+    runM ((ExceptT.lift (p.run) : PM (Except E α)) >>= f) s = runM (f (runM p s).2) (runM p s).1 := by
+  rw [runM_bind, runM_lift_run]
+
+theorem updMintQ_updMintQ (qs : List MintQ) (id : Nat) (a b : MQState) :
+    updMintQ (updMintQ qs id a) id b = updMintQ qs id b := by
+  unfold updMintQ
+  simp only [List.map_map]
+  congr 1
+  funext q
+  simp only [Function.comp]
+  by_cases h : (q.id == id) = true <;> simp [h]
+
+/-- Outcome of `MintTokens`, relative to the state after the leading `GetMintQuoteState`. -/
+theorem mintTokens_cases (cx : Cx) (qid : Int) (outs : List BMsg) (sig : QSig) (s s' : DL) (r : Except E (List BSig))
+    (h : runM (mintTokens cx qid outs sig) s = (s', r)) :
+    (∃ e, (gmqsSpec qid s).2 = .error e ∧ r = .error e ∧ s' = (gmqsSpec qid s).1) ∨
+    (∃ q, (gmqsSpec qid s).2 = .ok q ∧
+      ((q.state = .unpaid ∧ r = .error eNotPaid ∧ s' = (gmqsSpec qid s).1) ∨
+       (q.state = .issued ∧ r = .error eAlreadyIssued ∧ s' = (gmqsSpec qid s).1) ∨
+       (q.state = .pending ∧ r = .error eQuotePending ∧ s' = (gmqsSpec qid s).1) ∨
+       (q.state = .paid ∧
+         ((∃ e, r = .error e ∧ s'.2 = (gmqsSpec qid s).1.2 ∧
+             (s'.1 = (gmqsSpec qid s).1.1 ∨
+              s'.1 = { (gmqsSpec qid s).1.1 with mintQ := updMintQ (gmqsSpec qid s).1.1.mintQ q.id .paid })) ∨
+          (∃ sigs, r = .ok sigs ∧ MintOk cx q outs sig (gmqsSpec qid s).1 s' sigs))))) := by
+  simp only [mintTokens] at h
+  rw [runM_getMintQuoteState_bind] at h
+  generalize hg : gmqsSpec qid s = g at h ⊢
+  obtain ⟨s1, r1⟩ := g
+  cases r1 with
+  | error e => left; simp only [] at h; cases h; exact ⟨e, rfl, rfl, rfl⟩
+  | ok q =>
+    right
+    refine ⟨q, rfl, ?_⟩
+    simp only [] at h
+    cases hst : q.state with
+    | unpaid => simp only [hst] at h; left; cases h; exact ⟨rfl, rfl, rfl⟩
+    | issued => simp only [hst] at h; right; left; cases h; exact ⟨rfl, rfl, rfl⟩
+    | pending => simp only [hst] at h; right; right; left; cases h; exact ⟨rfl, rfl, rfl⟩
+    | paid =>
+      simp only [hst] at h
+      right; right; right
+      refine ⟨rfl, ?_⟩
+      rw [runM_liftrun_bind] at h
+      generalize hi : runM (mintInner cx q outs sig) s1 = inner at h
+      obtain ⟨s2, r2⟩ := inner
+      rcases mintInner_cases cx q outs sig s1 s2 r2 hi with ⟨e, rfl, hs2⟩ | ⟨sigs, rfl, hok⟩
+      · left
+        simp only [] at h
+        obtain ⟨db2, ln2⟩ := s2
+        prog_simp [runM_pure] at h
+        split at h
+        · cases h
+          refine ⟨e, rfl, ?_, ?_⟩
+          · rcases hs2 with h2 | h2 <;> (cases h2; rfl)
+          · right
+            rcases hs2 with h2 | h2
+            · cases h2; rfl
+            · cases h2; simp only [updMintQ_updMintQ]
+        · cases h
+          refine ⟨_, rfl, ?_, ?_⟩
+          · rcases hs2 with h2 | h2 <;> (cases h2; rfl)
+          · rename_i hany
+            rcases hs2 with h2 | h2
+            · cases h2; left; rfl
+            · cases h2
+              left
+              simp only [any_updMintQ] at hany
+              -- the quote row does not exist: updMintQ changes nothing
+              have : updMintQ s1.1.mintQ q.id .pending = s1.1.mintQ := by
+                unfold updMintQ
+                conv => rhs; rw [← List.map_id s1.1.mintQ]
+                apply List.map_congr_left
+                intro x hx
+                split
+                · exfalso; apply hany
+                  simp only [List.any_eq_true]
+                  exact ⟨x, hx, ‹_›⟩
+                · rfl
+              simp only [this]
+      · right
+        simp only [] at h
+        cases h
+        exact ⟨sigs, rfl, hok⟩
+
+
+/-! ## Melt -/
+
+theorem any_updMeltQ (qs : List MeltQ) (id id' pre : Nat) (st : LQState) :
+    (updMeltQ qs id pre st).any (·.id == id') = qs.any (·.id == id') := by
+  unfold updMeltQ
+  induction qs with
+  | nil => rfl
+  | cons q rest ih =>
+    simp only [List.map_cons, List.any_cons, ih]
+    congr 1
+    split <;> rfl
+
+/-- What a melt's Lightning answers decide (C05's table): first the pay call, then — only if that was neither
+    success nor pending — the extra status lookup. -/
+def meltOutcome (a0 a1 : LnAns) : LQState :=
+  match a0 with
+  | .succ => .paid
+  | .pending => .pending
+  | _ =>
+    match a1 with
+    | .notfound | .notfoundGrpc | .failed => .unpaid
+    | .succ => .paid
+    | _ => .pending
+
+/-- Tables after the payment switch of a melt, starting from the locked state `dbL`. -/
+def tailDb (dbL : DB) (q : MeltQ) (ps : List Proof) (pre : Nat) : LQState → DB
+  | .pending => dbL
+  | .paid => { dbL with pending := dbL.pending.filter (fun r => !(ps.map (·.secret)).contains r.y),
+                        spent := dbL.spent ++ ps.map Proof.row,
+                        meltQ := updMeltQ dbL.meltQ q.id pre .paid }
+  | .unpaid => { dbL with pending := dbL.pending.filter (fun r => !(ps.map (·.secret)).contains r.y),
+                          meltQ := updMeltQ dbL.meltQ q.id 0 .unpaid }
+
+def tailQuote (q : MeltQ) : LQState → MeltQ
+  | .pending => q
+  | .paid => { q with state := .paid, preimage := q.hash + 1 }
+  | .unpaid => { q with state := .unpaid }
+
+theorem runM_settleProofs_bind {β : Type} (ps : List Proof) (f : Unit → PM β) (db : DB) (ln : LN) :
+    runM (settleProofs ps >>= f) (db, ln) =
+      match insertRows db.spent (ps.map Proof.row) with
+      | some t => runM (f ()) ({ db with pending := db.pending.filter (fun r => !(ps.map (·.secret)).contains r.y), spent := t }, ln)
+      | none => (({ db with pending := db.pending.filter (fun r => !(ps.map (·.secret)).contains r.y) }, ln), .error (1, "db")) := by
+  rw [runM_bind]
+  simp only [settleProofs]
+  prog_simp [runM_pure]
+  cases insertRows db.spent (ps.map Proof.row) <;> rfl
+
+theorem meltAfterPay_runM (q : MeltQ) (ps : List Proof) (a0 : LnAns) (dbL : DB) (ln : LN)
+    (hany : dbL.meltQ.any (·.id == q.id) = true)
+    (hsp : insertRows dbL.spent (ps.map Proof.row) = some (dbL.spent ++ ps.map Proof.row)) :
+    (runM (meltAfterPay q ps a0) (dbL, ln)).1.1 = tailDb dbL q ps (q.hash + 1) (meltOutcome a0 (popScript ln).2) ∧
+    (runM (meltAfterPay q ps a0) (dbL, ln)).2 = .ok (tailQuote q (meltOutcome a0 (popScript ln).2)) := by
+  cases a0 <;> simp only [meltAfterPay]
+  case succ =>
+    prog_simp [runM_settleProofs_bind]
+    simp only [hsp, any_updMeltQ, hany, if_true]
+    exact ⟨rfl, rfl⟩
+  case pending => exact ⟨rfl, rfl⟩
+  all_goals
+    prog_simp [runM_pure]
+    cases (popScript ln).2 <;> simp only [meltOutcome, tailDb, tailQuote]
+    all_goals first
+      | exact ⟨rfl, rfl⟩
+      | (prog_simp [runM_settleProofs_bind]
+         simp only [hsp, any_updMeltQ, hany, if_true]
+         first | exact ⟨rfl, rfl⟩ | trivial | (constructor <;> first | rfl | trivial))
+
+theorem meltInternal_runM (q : MeltQ) (ps : List Proof) (mq : MintQ) (dbL : DB) (ln : LN)
+    (hany : dbL.meltQ.any (·.id == q.id) = true) (hmq : dbL.mintQ.any (·.id == mq.id) = true)
+    (hsp : insertRows dbL.spent (ps.map Proof.row) = some (dbL.spent ++ ps.map Proof.row)) :
+    ((lnInvStatus ln mq.hash).2 = none ∧
+      (runM (meltInternal q ps mq) (dbL, ln)).1.1 = tailDb dbL q ps 0 .unpaid ∧
+      (runM (meltInternal q ps mq) (dbL, ln)).2 = .error (2, "ln")) ∨
+    ((lnInvStatus ln mq.hash).2 ≠ none ∧
+      (runM (meltInternal q ps mq) (dbL, ln)).1.1 =
+        { tailDb dbL q ps (mq.hash + 1) .paid with mintQ := updMintQ dbL.mintQ mq.id .paid } ∧
+      (runM (meltInternal q ps mq) (dbL, ln)).2 = .ok { q with state := .paid, preimage := mq.hash + 1 }) := by
+  simp only [meltInternal]
+  prog_simp [runM_pure]
+  cases hst : (lnInvStatus ln mq.hash).2 with
+  | none =>
+    left
+    simp only [hany, if_true]
+    prog_simp [runM_pure]
+    simp only [hany, if_true]
+    first | exact ⟨trivial, rfl, rfl⟩ | trivial | (refine ⟨?_, ?_, ?_⟩ <;> first | rfl | trivial)
+  | some b =>
+    right
+    simp only []
+    prog_simp [runM_pure]
+    simp only [hany, any_updMeltQ, hmq, hsp, if_true, tailDb]
+    first | exact ⟨by simp, rfl, rfl⟩ | trivial | (refine ⟨?_, ?_, ?_⟩ <;> first | rfl | trivial | simp)
+
+
+theorem dbGetMeltQ_ok {db : DB} {qid : Int} {q : MeltQ} (h : dbGetMeltQ db qid = .ok q) :
+    q ∈ db.meltQ ∧ (qid = (q.id : Int)) ∧ db.meltQ.any (·.id == q.id) = true := by
+  unfold dbGetMeltQ at h
+  split at h
+  · rename_i q' hf
+    injection h with h; subst h
+    have hm := List.mem_of_find?_eq_some hf
+    have hp := List.find?_some hf
+    refine ⟨hm, by simpa [intIs] using hp, ?_⟩
+    simp only [List.any_eq_true]; exact ⟨q', hm, by simp⟩
+  · cases h
+
+theorem gateAll_not_high {mem : Mem} {ps : List Proof} (h : gateAll mem ps = .ok ()) :
+    ∀ r ∈ ps.map Proof.row, high r.amount = false := by
+  intro r hr
+  obtain ⟨p, hp, rfl⟩ := List.mem_map.1 hr
+  obtain ⟨_, _, _, _, hk, _⟩ := gate_ok (gateAll_ok h p hp)
+  exact isKeyAmount_not_high hk
+
+
+def lockRows (q : MeltQ) (ps : List Proof) : List PRow := (ps.map Proof.row).map (fun r => { r with quote := q.id })
+
+/-- Tables right after a melt locked its inputs and set the quote PENDING. -/
+def lockedDb (db : DB) (q : MeltQ) (ps : List Proof) : DB :=
+  { db with pending := db.pending ++ lockRows q ps, meltQ := updMeltQ db.meltQ q.id 0 .pending }
+
+/-- First and second scripted Lightning answer. -/
+def ans0 (ln : LN) : LnAns := (popScript ln).2
+def ans1 (ln : LN) : LnAns := (popScript (popScript ln).1).2
+
+theorem popScript_lnPop (ln : LN) (c : LnAns → LnCall) : (popScript (lnPop ln c)).2 = ans1 ln := by
+  obtain ⟨inv, script, f1, f2, fp, calls⟩ := ln
+  cases script with
+  | nil => rfl
+  | cons a rest => cases rest <;> rfl
+
+theorem dbGetMintQByHash_upd (db : DB) (p : List PRow) (mq : List MeltQ) (h : Nat) :
+    dbGetMintQByHash { db with pending := p, meltQ := mq } h = dbGetMintQByHash db h := rfl
+
+theorem dbGetMintQByHash_ok {db : DB} {h : Nat} {q : MintQ} (hq : dbGetMintQByHash db h = .ok q) :
+    q ∈ db.mintQ ∧ q.hash = h ∧ db.mintQ.any (·.id == q.id) = true := by
+  unfold dbGetMintQByHash at hq
+  split at hq
+  · rename_i q' hf
+    injection hq with hq; subst hq
+    have hm := List.mem_of_find?_eq_some hf
+    have hp := List.find?_some hf
+    refine ⟨hm, by simpa using hp, ?_⟩
+    simp only [List.any_eq_true]; exact ⟨q', hm, by simp⟩
+  · cases hq
+
+/-- A melt that passed validation. -/
+structure MeltAccepted (cx : Cx) (qid : Int) (ps : List Proof) (s : DL) (q : MeltQ) : Prop where
+  quote : dbGetMeltQ s.1 qid = .ok q
+  unpaid : q.state = .unpaid
+  verified : verifySpec cx ps s.1 = .ok ()
+  enough : ¬ (amountWrap (ps.map (·.amount)) < q.amount + q.feeReserve + transactionFees cx.mem ps)
+  noSigAll : proofsSigAll ps = false
+  distinct : (ps.map (·.secret)).Nodup
+
+theorem melt_cases (cx : Cx) (qid : Int) (ps : List Proof) (s s' : DL) (r : Except E MeltQ)
+    (h : runM (meltTokens cx qid ps) s = (s', r)) :
+    (∃ e, r = .error e ∧ s' = s) ∨
+    (∃ q, MeltAccepted cx qid ps s q ∧
+      ((-- paid over Lightning: the outcome is the table `meltOutcome` of the two scripted answers
+        (∃ e, dbGetMintQByHash s.1 q.hash = .error e) ∧
+        r = .ok (tailQuote { q with state := .pending } (meltOutcome (ans0 s.2) (ans1 s.2))) ∧
+        s'.1 = tailDb (lockedDb s.1 q ps) { q with state := .pending } ps (q.hash + 1) (meltOutcome (ans0 s.2) (ans1 s.2))) ∨
+       (-- settled internally against a mint quote of this mint
+        ∃ mq, dbGetMintQByHash s.1 q.hash = .ok mq ∧
+          ((r = .ok { q with state := .paid, preimage := mq.hash + 1 } ∧
+            s'.1 = { tailDb (lockedDb s.1 q ps) { q with state := .pending } ps (mq.hash + 1) .paid with
+                      mintQ := updMintQ s.1.mintQ mq.id .paid }) ∨
+           (r = .error (2, "ln") ∧ s'.1 = tailDb (lockedDb s.1 q ps) { q with state := .pending } ps 0 .unpaid))))) := by
+  obtain ⟨db, ln⟩ := s
+  prog_simp [meltTokens] at h
+  cases hq : dbGetMeltQ db qid with
+  | error e => simp only [hq] at h; left; cases h; exact ⟨_, rfl, rfl⟩
+  | ok q =>
+    simp only [hq] at h
+    prog_simp [runM_verifyProofs_bind] at h
+    split at h; · left; cases h; exact ⟨_, rfl, rfl⟩
+    split at h; · left; cases h; exact ⟨_, rfl, rfl⟩
+    rename_i hnp hnpe
+    split at h
+    rotate_left; · left; cases h; exact ⟨_, rfl, rfl⟩
+    rename_i u hver
+    split at h; · left; cases h; exact ⟨_, rfl, rfl⟩
+    split at h; · left; cases h; exact ⟨_, rfl, rfl⟩
+    rename_i henough hsa
+    split at h
+    rotate_left; · left; cases h; exact ⟨_, rfl, rfl⟩
+    rename_i t hlock
+    obtain ⟨_, _, hany⟩ := dbGetMeltQ_ok hq
+    obtain ⟨ht, hnd, hfreshP, _⟩ := insertRows_some hlock
+    have hdist : (ps.map (·.secret)).Nodup := by
+      simpa [Proof.row, List.map_map, Function.comp_def] using hnd
+    have hun : q.state = .unpaid := by
+      cases hs : q.state <;> simp_all
+    obtain ⟨_, _, hfreshS, _, hgate⟩ := verifySpec_ok_fresh (by cases u; exact hver)
+    have hacc : MeltAccepted cx qid ps (db, ln) q :=
+      ⟨hq, hun, by cases u; exact hver, henough, by simpa using hsa, hdist⟩
+    have hspent : insertRows db.spent (ps.map Proof.row) = some (db.spent ++ ps.map Proof.row) := by
+      apply insertRows_of
+      · simpa [Proof.row, List.map_map, Function.comp_def] using hdist
+      · intro r hr
+        obtain ⟨p, hp, rfl⟩ := List.mem_map.1 hr
+        exact hfreshS p hp
+      · exact gateAll_not_high hgate
+    simp only [hany, if_true] at h
+    have htl : t = (lockedDb db q ps).pending := by simp [lockedDb, lockRows, ht]
+    right
+    refine ⟨q, hacc, ?_⟩
+    have hanyL : (lockedDb db q ps).meltQ.any (·.id == ({ q with state := LQState.pending } : MeltQ).id) = true := by
+      simp only [lockedDb, any_updMeltQ]; exact hany
+    cases hmq : dbGetMintQByHash db q.hash with
+    | ok mq =>
+      right
+      refine ⟨mq, rfl, ?_⟩
+      simp only [dbGetMintQByHash_upd, hmq] at h
+      obtain ⟨_, _, hmqany⟩ := dbGetMintQByHash_ok hmq
+      have := meltInternal_runM { q with state := .pending } ps mq (lockedDb db q ps) ln hanyL hmqany hspent
+      rw [htl] at h
+      change runM (meltInternal _ ps mq) (lockedDb db q ps, ln) = (s', r) at h
+      rw [h] at this
+      rcases this with ⟨_, h1, h2⟩ | ⟨_, h1, h2⟩
+      · right; exact ⟨h2, h1⟩
+      · left; exact ⟨h2, h1⟩
+    | error e =>
+      left
+      refine ⟨⟨e, rfl⟩, ?_⟩
+      simp only [dbGetMintQByHash_upd, hmq] at h
+      rw [htl] at h
+      split at h
+      · prog_simp [runM_pure] at h
+        have := meltAfterPay_runM { q with state := .pending } ps (popScript ln).2 (lockedDb db q ps)
+          (lnPop ln (fun a => ⟨"PayPartialAmount", q.inv, if q.amountMsat == 0 then invMsat ln q.inv else q.amountMsat, q.feeReserve, a.str⟩)) hanyL hspent
+        change runM (meltAfterPay _ ps _) (lockedDb db q ps, _) = (s', r) at h
+        rw [h, popScript_lnPop] at this
+        exact ⟨this.2, this.1⟩
+      · prog_simp [runM_pure] at h
+        have := meltAfterPay_runM { q with state := .pending } ps (popScript ln).2 (lockedDb db q ps)
+          (lnPop ln (fun a => ⟨"SendPayment", q.inv, invMsat ln q.inv, q.feeReserve, a.str⟩)) hanyL hspent
+        change runM (meltAfterPay _ ps _) (lockedDb db q ps, _) = (s', r) at h
+        rw [h, popScript_lnPop] at this
+        exact ⟨this.2, this.1⟩
+
+
+/-! ## Polling a pending melt -/
+
+/-- Inputs locked by melt quote `qid`, as rows for the spent table. -/
+def quoteRows (db : DB) (qid : Nat) : List PRow := (db.pending.filter (·.quote == qid)).map (fun r => { r with quote := 0 })
+def quoteYs (db : DB) (qid : Nat) : List Nat := (db.pending.filter (·.quote == qid)).map (·.y)
+
+/-- Tables after a poll of a PENDING melt quote, by the answer's verdict. -/
+def pollDb (db : DB) (q : MeltQ) : LQState → DB
+  | .pending => db
+  | .paid => { db with pending := db.pending.filter (fun r => !(quoteYs db q.id).contains r.y),
+                       spent := db.spent ++ quoteRows db q.id,
+                       meltQ := updMeltQ db.meltQ q.id (q.hash + 1) .paid }
+  | .unpaid => { db with pending := db.pending.filter (fun r => !(quoteYs db q.id).contains r.y),
+                         meltQ := updMeltQ db.meltQ q.id 0 .unpaid }
+
+/-- What a status-lookup answer means for a pending melt when it is polled (C05): only a clean
+    `succ` / `failed` is adopted; `pending` and every answer that carries an error (including not-found) change nothing. -/
+def pollOutcome : LnAns → LQState
+  | .succ => .paid
+  | .failed => .unpaid
+  | _ => .pending
+
+/-- The parts of table well-formedness a poll relies on. -/
+structure PendingWf (db : DB) : Prop where
+  pendingNodup : (ysOf db.pending).Nodup
+  disjoint : ∀ r ∈ db.pending, r.y ∉ ysOf db.spent
+  pendingLow : ∀ r ∈ db.pending, high r.amount = false
+
+theorem quoteRows_insert (db : DB) (qid : Nat) (h : PendingWf db) :
+    insertRows db.spent (quoteRows db qid) = some (db.spent ++ quoteRows db qid) := by
+  apply insertRows_of
+  · have : (quoteRows db qid).map (·.y) = (db.pending.filter (·.quote == qid)).map (·.y) := by
+      simp [quoteRows, List.map_map, Function.comp_def]
+    rw [this]
+    exact List.Nodup.sublist (List.Sublist.map _ List.filter_sublist) h.pendingNodup
+  · intro r hr
+    simp only [quoteRows, List.mem_map, List.mem_filter] at hr
+    obtain ⟨r0, ⟨hr0, _⟩, rfl⟩ := hr
+    exact h.disjoint r0 hr0
+  · intro r hr
+    simp only [quoteRows, List.mem_map, List.mem_filter] at hr
+    obtain ⟨r0, ⟨hr0, _⟩, rfl⟩ := hr
+    exact h.pendingLow r0 hr0
+
+theorem runM_removePendingForQuote_bind {β : Type} (qid : Nat) (f : List PRow → PM β) (db : DB) (ln : LN) :
+    runM (removePendingForQuote qid >>= f) (db, ln) =
+      runM (f (quoteRows db qid)) ({ db with pending := db.pending.filter (fun r => !(quoteYs db qid).contains r.y) }, ln) := by
+  rw [runM_bind]
+  simp only [removePendingForQuote]
+  prog_simp [runM_pure]
+  rfl
+
+theorem poll_cases (qid : Int) (s s' : DL) (r : Except E MeltQ) (hwf : PendingWf s.1)
+    (h : runM (getMeltQuoteState qid) s = (s', r)) :
+    (dbGetMeltQ s.1 qid = .error .notFound ∧ r = .error eQuoteNotExist ∧ s' = s) ∨
+    (∃ q, dbGetMeltQ s.1 qid = .ok q ∧
+      ((q.state ≠ .pending ∧ r = .ok q ∧ s' = s) ∨
+       (q.state = .pending ∧
+         r = .ok (tailQuote q (pollOutcome (ans0 s.2))) ∧
+         s'.1 = pollDb s.1 q (pollOutcome (ans0 s.2))))) := by
+  obtain ⟨db, ln⟩ := s
+  prog_simp [getMeltQuoteState] at h
+  cases hq : dbGetMeltQ db qid with
+  | error e =>
+    simp only [hq] at h; left; cases h
+    refine ⟨?_, rfl, rfl⟩
+    unfold dbGetMeltQ at hq; split at hq <;> cases hq; rfl
+  | ok q =>
+    right
+    refine ⟨q, rfl, ?_⟩
+    simp only [hq] at h
+    obtain ⟨_, _, hany⟩ := dbGetMeltQ_ok hq
+    by_cases hp : q.state = .pending
+    · right
+      refine ⟨hp, ?_⟩
+      have hne : (q.state != LQState.pending) = false := by simp [hp]
+      simp only [hne, Bool.false_eq_true, if_false] at h
+      prog_simp [runM_pure] at h
+      have hins := quoteRows_insert db q.id hwf
+      cases ha : (popScript ln).2 <;> simp only [ha, ansHasErr, Bool.false_eq_true, if_false, if_true] at h
+      all_goals simp only [ans0, ha, pollOutcome, tailQuote, pollDb]
+      case succ =>
+        prog_simp [runM_removePendingForQuote_bind] at h
+        simp only [hins, any_updMeltQ, hany, if_true] at h
+        cases h
+        exact ⟨rfl, rfl⟩
+      case failed =>
+        prog_simp [runM_removePendingForQuote_bind] at h
+        simp only [hany, if_true] at h
+        cases h
+        exact ⟨rfl, rfl⟩
+      all_goals (cases h; exact ⟨rfl, rfl⟩)
+    · left
+      have hne : (q.state != LQState.pending) = true := by simp [hp]
+      simp only [hne, if_true] at h
+      cases h
+      exact ⟨hp, rfl, rfl⟩
+
+
+/-! ## Restore and state check -/
+
+theorem restore_runM (bs : List Nat) (s : DL) :
+    runM (restoreSigs bs) s = (s, .ok (bs.filterMap (fun b => s.1.sigs.find? (·.b == b)))) := by
+  obtain ⟨db, ln⟩ := s
+  induction bs with
+  | nil => rfl
+  | cons b rest ih =>
+    simp only [restoreSigs]
+    prog_simp [runM_pure]
+    unfold dbGetSig
+    cases hf : db.sigs.find? (·.b == b) with
+    | none => simp only [List.filterMap_cons, hf]; exact ih
+    | some sg =>
+      simp only [List.filterMap_cons, hf]
+      rw [runM_bind, ih]
+      rfl
+
+/-- `ProofsStateCheck` answers from the tables as they are after re-polling the pending melts involved. -/
+theorem checkstate_runM (ys : List YRef) (s : DL) :
+    runM (proofsStateCheck ys) s =
+      match runM (pollAll (dedupNat ((s.1.pending.filter (fun r => yMatch ys r.y)).map (·.quote))).reverse) s with
+      | (s1, .ok _) =>
+        (s1, .ok (ys.map (stateOf (s1.1.spent.filter (fun r => yMatch ys r.y)) (s1.1.pending.filter (fun r => yMatch ys r.y)))))
+      | (s1, .error e) => (s1, .error e) := by
+  obtain ⟨db, ln⟩ := s
+  simp only [proofsStateCheck]
+  prog_simp [runM_pure]
+  rw [runM_bind]
+  generalize runM (pollAll _) (db, ln) = x
+  obtain ⟨⟨db1, ln1⟩, r1⟩ := x
+  cases r1 with
+  | error e => rfl
+  | ok u =>
+    simp only []
+    prog_simp [runM_pure]
+
+theorem find_filter_yMatch (t : List PRow) (ys : List YRef) (y : Nat) (h : YRef.known y ∈ ys) :
+    (t.filter (fun r => yMatch ys r.y)).find? (·.y == y) = t.find? (·.y == y) := by
+  induction t with
+  | nil => rfl
+  | cons r rest ih =>
+    simp only [List.filter_cons]
+    by_cases hy : r.y = y
+    · subst hy
+      have : yMatch ys r.y = true := by
+        unfold yMatch; simp [h]
+      simp [this]
+    · by_cases hm : yMatch ys r.y = true
+      · simp [hm, hy, ih]
+      · simp [hm, hy, ih]
+
+/-- The answer for each `Y` is decided by the whole tables (the IN-list filter loses nothing). -/
+theorem stateOf_filter (used pending : List PRow) (ys : List YRef) (y : YRef) (h : y ∈ ys) :
+    stateOf (used.filter (fun r => yMatch ys r.y)) (pending.filter (fun r => yMatch ys r.y)) y = stateOf used pending y := by
+  cases y with
+  | unk t => rfl
+  | known y =>
+    simp only [stateOf, find_filter_yMatch _ ys y h]
+
 
 end Gonuts.Model.Mint
